@@ -87,6 +87,11 @@ def invoke(world, rec):
     S = world.sempler
     api = rec["api"]
     a = rec.get("args", {})
+    if rec.get("npints"):
+        # the same integers as numpy integer scalars (what indexing / arithmetic on arrays hands to the caller)
+        a = {k: (np.int64(v) if isinstance(v, int) and not isinstance(v, bool) and k in ("p", "K", "n", "k", "size")
+                 else v) for k, v in a.items()}
+        world.probes["call.integers_as_numpy_scalars"] += 1
     seed = seed_object(world, rec.get("seed"))
 
     if api == "lganm.new":
